@@ -303,6 +303,16 @@ func c15cases(c *h.Ctx) []fileCase {
 		"variables-null":      "variables: {A: null}\ntasks: {t1: {command: [\"echo {{.A}}\"]}}\n",
 	}
 	text["layered-dag-declared-bottom-up"] = layeredDag(30)
+	// names outside ASCII (several bytes per character) together with descriptions, which `list` and `show` print
+	text["names/cyrillic-with-descriptions"] = "tasks:\n  сборка-проекта-целиком: {command: [\"true\"], description: \"собрать всё\"}\n  t1: {command: [\"true\"], description: \"short\"}\n  проверка: {command: [\"true\"]}\npipelines:\n  p1: [{task: t1}, {task: проверка, depends_on: [t1]}]\n"
+	text["names/accented-cjk-emoji"] = "tasks:\n  déploiement-général-été: {command: [\"true\"], description: \"d\"}\n  构建全部项目任务: {command: [\"true\"], description: \"构建\"}\n  \"🚀🚀🚀🚀🚀🚀\": {command: [\"true\"], description: \"launch\"}\n  t1: {command: [\"true\"]}\n"
+	text["names/combining-and-wide"] = "tasks:\n  \"a\u0301\u0301\u0301\u0301\u0301\u0301\u0301\u0301\": {command: [\"true\"], description: \"combining\"}\n  ｆｕｌｌｗｉｄｔｈ: {command: [\"true\"], description: \"wide\"}\n"
+	// env_file paths that are not regular readable files
+	text["env-file/is-the-directory-itself"] = "tasks: {t1: {command: [\"true\"], env_file: \".\"}}\n"
+	text["env-file/is-a-sub-directory"] = "tasks: {t1: {command: [\"true\"], env_file: \"inc\"}}\n"
+	text["env-file/is-a-sub-directory-slash"] = "tasks: {t1: {command: [\"true\"], env_file: \"inc/\"}}\n"
+	text["env-file/missing"] = "tasks: {t1: {command: [\"true\"], env_file: \"no/such.env\"}}\n"
+	text["env-file/dev-null"] = "tasks: {t1: {command: [\"true\"], env_file: \"/dev/null\"}}\n"
 	// two stages with one name where the stage that holds the name includes a pipeline
 	text["dup-stage/pipeline-included-twice"] = "tasks: {t1: {command: [\"true\"]}}\npipelines:\n  p2: [{task: t1}]\n  p1: [{pipeline: p2}, {pipeline: p2}]\n"
 	text["dup-stage/pipeline-then-task-named-alike"] = "tasks: {t1: {command: [\"true\"]}}\npipelines:\n  p2: [{task: t1}]\n  p1: [{pipeline: p2}, {name: p2, task: t1}]\n"
@@ -355,6 +365,7 @@ func c15cases(c *h.Ctx) []fileCase {
 		"json-deep":     strings.Repeat("{\"tasks\":", 200) + "1" + strings.Repeat("}", 200),
 		"json-bignum":   "{\"tasks\":{\"t1\":{\"command\":[\"true\"],\"timeout\":1e400}}}",
 		"json-import-1": "{\"import\": \"x.yaml\"}", "json-import-2": "{\"import\": [3]}",
+		"json-names-invalid-utf8-with-description": "{\"tasks\": {\"\xff\xfe\xfd\xfc\xfb\xfa\": {\"command\": [\"true\"], \"description\": \"bytes\"}, \"t1\": {\"command\": [\"true\"], \"description\": \"x\"}}}",
 	}
 	for k, v := range jsonText {
 		cases = append(cases, fileCase{name: "text:" + k, ext: ".json", content: v})
